@@ -33,15 +33,28 @@ class Source:
         self.is_pyx = rel.endswith((".pyx", ".pxd"))
         self.low = None
         self.renamed = {}
+        self.normalised = {}
         try:
             if self.is_pyx:
                 self.low = pyxfront.lower(rel, text)
                 self.tree = self.low.tree
+                from . import normalize
+                self.normalised = normalize.normalise(rel, self.tree, localnames.table().get(rel, {}).get("__inventory__"))
                 self.renamed = localnames.recover(rel, self.tree, self.low)
+                if localnames.table().get(rel):
+                    n_t = normalize.inline_new_temps(self.tree, localnames.table().get(rel, {}))
+                    if n_t:
+                        self.normalised["temporaries"] = n_t
             else:
                 self.tree = ast.parse(text, filename=rel)
-                # undo behaviour-preserving renames of local variables (see localnames.py)
+                # undo behaviour-preserving refactorings (new constants, helpers, table loops: normalize.py) ...
+                from . import normalize
+                self.normalised = normalize.normalise(rel, self.tree, localnames.table().get(rel, {}).get("__inventory__"))
+                # ... and renames of local variables (localnames.py), then temporaries the reference did not have
                 self.renamed = localnames.recover(rel, self.tree)
+                n_t = normalize.inline_new_temps(self.tree, localnames.table().get(rel, {}))
+                if n_t:
+                    self.normalised["temporaries"] = n_t
         except pyxfront.LoweringError as e:
             raise AnalysisError(f"cannot lower {rel}: {e}")
         except SyntaxError as e:
